@@ -869,6 +869,20 @@ def register(I):
             return alts[0][1]
         return Outcomes(alts + ([(bad, Panic("range end index out of range for slice", "core::slice"))] if bad is not False else []))
 
+    @reg("IndexMut::index_mut")
+    def index_mut(I, st, args, info):
+        r, i = args[0], deref_all(I, args[1], st)
+        if not isinstance(r, Ref):
+            raise Unsupported("index_mut through %r" % (r,))
+        v = I.read_ref(r, st)
+        if isinstance(v, (Union, MapV, StrSlice, StringV)) or isinstance(i, Struct):
+            raise Unsupported("index_mut on %s / range" % type(v).__name__)
+        if not isinstance(i, int):
+            raise Unsupported("symbolic element index through IndexMut::index_mut")
+        if i >= len(seq_of(I, v, st)):
+            raise PanicExc("index out of bounds")
+        return Ref(r.key, r.path + (("constindex", i, False),))
+
     @reg("Index::index")
     def any_index(I, st, args, info):
         v = deref_all(I, args[0], st)
@@ -1091,6 +1105,8 @@ def register(I):
         def f(x):
             if isinstance(x, IterV):
                 return x
+            if isinstance(x, SetV):
+                return UnorderedIter([ValRef(k) if byref else k for k, w in ordered_entries(I, x)])
             if isinstance(x, MapV):
                 return UnorderedIter([(ValRef(k), ValRef(w)) if byref else (k, w) for k, w in ordered_entries(I, x)])
             items = seq_of(I, x, st)
@@ -1191,6 +1207,42 @@ def register(I):
                 paths = nxt_paths
             elif kind == "enumerate":
                 paths = [(s0, [(i, x) for i, x in enumerate(items)]) for s0, items in paths]
+            elif kind in ("filter", "take_while", "skip_while"):
+                # predicate over &item; a symbolic verdict forks the path
+                nxt_paths = []
+                for cur, items in paths:
+                    partial = [(cur, [], True)]
+                    for x in items:
+                        step = []
+                        for s0, out, active in partial:
+                            if kind == "take_while" and not active:
+                                step.append((s0, out, active))
+                                continue
+                            if kind == "skip_while" and not active:
+                                step.append((s0, out + [x], active))
+                                continue
+                            for s1, r in I.call_value(op[1], [ValRef(x)], s0):
+                                if isinstance(r, Panic):
+                                    panics.append((s1, r))
+                                    continue
+                                if isinstance(r, (Union, Adt)):
+                                    raise Unsupported("non-boolean predicate result in " + kind)
+                                for val, g in ((True, r), (False, b_not(r))):
+                                    g = b_simpl(g) if is_sym(g) else g
+                                    if g is False or (g is not True and not I.feasible(s1.pc, g)):
+                                        continue
+                                    s2 = s1 if g is True else s1.fork(g)
+                                    if kind == "filter":
+                                        step.append((s2, out + [x] if val else out, True))
+                                    elif kind == "take_while":
+                                        step.append((s2, out + [x], True) if val else (s2, out, False))
+                                    else:
+                                        step.append((s2, out, True) if val else (s2, out + [x], False))
+                        partial = step
+                        if len(partial) > 6000:
+                            raise Unsupported("too many paths inside an iterator adaptor")
+                    nxt_paths.extend((s_, o_) for s_, o_, _ in partial)
+                paths = nxt_paths
             else:
                 raise Unsupported("iterator adaptor " + kind)
         return paths, panics
@@ -1315,15 +1367,15 @@ def register(I):
 
     @reg("Iterator::filter")
     def it_filter(I, st, args, info):
-        items = drive(I, args[0], st)
-        out = []
-        for x in items:
-            r = I.call1(args[1], [ValRef(x)], st)
-            if r is True:
-                out.append(x)
-            elif r is not False:
-                raise Unsupported("symbolic filter predicate")
-        return IterV(out)
+        it = args[0]
+        return type(it)(it.items, it.ops + (("filter", args[1]),))
+
+    @reg("Iterator::take_while", "Iterator::skip_while")
+    def it_take_while(I, st, args, info):
+        it = args[0]
+        if isinstance(it, (UnorderedIter, GuardedIter)):
+            raise Unsupported(info.path.last() + " over an unordered / conditional iterator")
+        return IterV(it.items, it.ops + ((info.path.last(), args[1]),))
 
     @reg("Iterator::find_map", "Iterator::find", "Iterator::position")
     def it_find(I, st, args, info):
@@ -1563,7 +1615,7 @@ def register(I):
                         out.extend(c[1])
                 alts.append((g, StringV(out)))
             return merge_many(alts)
-        return consume(I, args[0], st, lambda items, s2: collect_items(I, items, s2, info), unordered_ok=target.startswith("HashMap<"))
+        return consume(I, args[0], st, lambda items, s2: collect_items(I, items, s2, info), unordered_ok=target.startswith(("HashMap<", "HashSet<")))
 
     def collect_items(I, items, st, info):
         gens = info.path.generics(-1)
@@ -1596,6 +1648,11 @@ def register(I):
             m = MapV(())
             for k, v in items:
                 m = m.insert(I, k, v, st)[0]
+            return m
+        if target.startswith("HashSet<"):
+            m = SetV(())
+            for k in items:
+                m = m.insert(I, deref(k), (), st)[0]
             return m
         raise Unsupported("collect into " + target)
 
@@ -1674,6 +1731,40 @@ def register(I):
         idx = 1 if "values" in which else 0
         owned = which.startswith("into_")
         return UnorderedIter([(e[idx] if owned else ValRef(e[idx])) for e in ordered_entries(I, m)])
+
+    @reg("HashSet::new", "HashSet::with_capacity")
+    def set_new(I, st, args, info):
+        return SetV(())
+
+    @reg("HashSet::insert")
+    def set_insert(I, st, args, info):
+        r = args[0]
+        m = I.read_ref(r, st)
+        if isinstance(m, Union):
+            raise Unsupported("insert into a union of sets")
+        m2, look = m.insert(I, args[1], (), st)
+        I.write_cell(r.key, r.path, m2, st)
+        return b_or(*[g for g, old in look if old is None])
+
+    @reg("HashSet::contains")
+    def set_contains(I, st, args, info):
+        m = deref_all(I, args[0], st)
+        look = m.lookup(I, deref_all(I, args[1], st), st)
+        return b_or(*[g for g, v in look if v is not None])
+
+    @reg("HashSet::iter", "HashSet::into_iter", "HashSet::drain")
+    def set_iter(I, st, args, info):
+        m = deref_all(I, args[0], st)
+        owned = info.path.last() != "iter"
+        return UnorderedIter([(k if owned else ValRef(k)) for k, w in ordered_entries(I, m)])
+
+    @reg("HashSet::len")
+    def set_len(I, st, args, info):
+        return len(deref_all(I, args[0], st).entries)
+
+    @reg("HashSet::is_empty")
+    def set_is_empty(I, st, args, info):
+        return len(deref_all(I, args[0], st).entries) == 0
 
     @reg("HashMap::is_empty")
     def map_is_empty(I, st, args, info):
@@ -2648,7 +2739,7 @@ class MapV:
         """-> (new map, [(guard, old | None)])   symbolic key equality is resolved into unions"""
         look = self.lookup(I, key, st)
         if len(look) == 1 and look[0][1] is None:
-            return MapV(self.entries + ((key, val),)), look
+            return type(self)(self.entries + ((key, val),)), look
         if all(g is True or g is False for g, _ in look):
             ents = []
             for k, v in self.entries:
@@ -2656,11 +2747,16 @@ class MapV:
                     ents.append((k, val))
                 else:
                     ents.append((k, v))
-            return MapV(ents), look
+            return type(self)(ents), look
         raise Unsupported("HashMap insert with symbolic key equality")
 
     def __repr__(self):
         return "map{%s}" % ", ".join("%r: %r" % e for e in self.entries)
+
+
+class SetV(MapV):
+    """HashSet: a MapV whose values are ()"""
+    __slots__ = ()
 
 
 fmt_hooks = {}
